@@ -37,10 +37,10 @@ def run_all(args):
                 errs[prop] = problems[0]
                 continue
             lost = [r.rid for r in rules if r.floor and len(r.instances) < max(1, (r.floor + 2) // 3)]
-            if lost:
+            new, _old = split_known([f for r in rules for f in r.findings], [k for k in known if k.get("property") == prop])
+            if lost and not new:   # (a violation reported by other rules of the property stands, as in hsa.__main__)
                 errs[prop] = f"rule(s) {lost} lost their anchors"
                 continue
-            new, _old = split_known([f for r in rules for f in r.findings], [k for k in known if k.get("property") == prop])
             if new:
                 viol.add(prop)
                 for f in new:
